@@ -6,6 +6,8 @@ pub mod c05;
 pub mod c06;
 pub mod c07;
 pub mod c08;
+pub mod c09;
+pub mod c10;
 pub mod c11;
 pub mod c12;
 pub mod c13;
@@ -17,7 +19,7 @@ pub mod printing;
 use crate::framework::Ctx;
 use serde_json::Value as J;
 
-pub const ALL: &[&str] = &["C01", "C02", "C03", "C04", "C05", "C06", "C07", "C08", "C11", "C12", "C13", "C14", "C15", "C20"];
+pub const ALL: &[&str] = &["C01", "C02", "C03", "C04", "C05", "C06", "C07", "C08", "C09", "C10", "C11", "C12", "C13", "C14", "C15", "C20"];
 
 pub fn run(ctx: &mut Ctx) {
 	match ctx.prop {
@@ -26,6 +28,8 @@ pub fn run(ctx: &mut Ctx) {
 		"C03" => c03::run(ctx),
 		"C04" => c04::run(ctx),
 		"C08" => c08::run(ctx),
+		"C09" => c09::run(ctx),
+		"C10" => c10::run(ctx),
 		"C13" => c13::run(ctx),
 		"C14" => c14::run(ctx),
 		"C15" => c15::run(ctx),
@@ -46,6 +50,8 @@ pub fn replay(prop: &str, family: &str, case: &J) -> Result<(), String> {
 		"C03" => c03::replay(family, case),
 		"C04" => c04::replay(family, case),
 		"C08" => c08::replay(family, case),
+		"C09" => c09::replay(family, case),
+		"C10" => c10::replay(family, case),
 		"C13" => c13::replay(family, case),
 		"C14" => c14::replay(family, case),
 		"C15" => c15::replay(family, case),
@@ -69,4 +75,9 @@ pub fn child_main(args: &[String]) -> i32 {
 		Some("deep") => c03::child_deep(&args[1..]),
 		_ => 2,
 	}
+}
+
+/// I-JSON value strategy shared by C09 and C10.
+pub fn c09_value() -> proptest::strategy::BoxedStrategy<crate::refvalue::RefValue> {
+	c09::ijson_value(40)
 }
